@@ -123,6 +123,14 @@ def gen_configs(ctx, quick):
         extra.append(dict(base, tl_max=mx, client_auth=True, client_key='client-rsa', server_key='ecdsa'))
         extra.append(dict(base, tl_max=mx, resume=True, tickets=True))
         extra.append(dict(base, tl_max=mx, resume=True, tickets=False, no_tickets=True))
+        extra.append(dict(base, tl_max=mx, resume=3, tickets=True))                 # three resumptions in a row
+    # TLS 1.3 post-handshake traffic: 0..3 rounds of post-handshake client authentication interleaved with data,
+    # KeyUpdate from tlslite-ng
+    for rounds in (0, 1, 2, 3):
+        for key in ('rsa', 'ecdsa'):
+            extra.append(dict(base, server_key=key, pha=rounds, keyupdate=True, client_key='client-ecdsa'))
+    extra.append(dict(base, pha=2, keyupdate=False, client_key='client-ecdsa', tl_cipherNames=['chacha20-poly1305']))
+    extra.append(dict(base, pha=3, keyupdate=True, client_key='client-ecdsa', resume=2, tickets=True))
     for c in extra:
         for role in ('tl_client', 'tl_server'):
             cfgs.append(dict(c, role=role))
@@ -159,6 +167,10 @@ def no_alpn_conflict(cfg):
 
 def alert_only_alpn(obs):
     return 'no application protocol' in json.dumps(obs).lower() or [120] == obs.get('tl_outcome', [None, None])[1:2]
+
+
+def can_resume_chain(cfg, obs):
+    return not (cfg['role'] == 'tl_server' and obs.get('tl_version') == 4 and not cfg.get('tickets'))
 
 
 def usable_for_key(cfg, v, suite):
@@ -237,6 +249,22 @@ def run(ctx):
                     for k, v in s2.items():
                         if k.startswith('data_') and not k.startswith('data_err') and v is not True:
                             problems.append(('data-resumed', 'application data not intact after resumption'))
+            for rr in obs.get('pha_rounds', []):
+                if not rr.get('data_ok') or not rr.get('cert_seen') or rr.get('request'):
+                    problems.append(('pha-failed:round%d' % rr['round'],
+                                     'post-handshake client authentication round %d of %d failed: %r' % (rr['round'], cfg.get('pha'), rr)))
+            if cfg.get('pha') and len(obs.get('pha_rounds', [])) < cfg['pha'] and obs['tl_version'] == 4 and \
+                    all(rr.get('data_ok') for rr in obs.get('pha_rounds', [])):
+                problems.append(('pha-missing', 'only %d of %d post-handshake authentication rounds ran' % (len(obs.get('pha_rounds', [])), cfg['pha'])))
+            if obs.get('keyupdate') is not None and not obs['keyupdate']['ok']:
+                problems.append(('keyupdate-failed', 'data after a KeyUpdate sent by tlslite-ng failed: %r' % (obs['keyupdate'],)))
+            for idx, o3 in enumerate(obs.get('resumed_chain', [])[1:], 2):
+                if can_resume_chain(cfg, obs) and (not o3.get('completed') or not o3.get('ossl_reused')):
+                    problems.append(('resume-failed:nr%d' % idx, 'resumption number %d in a row failed: %r' % (
+                        idx, {k: o3.get(k) for k in ('tl_outcome', 'ossl_outcome', 'tl_resumed', 'ossl_reused')})))
+                for k, v in o3.items():
+                    if k.startswith('data_') and not k.startswith('data_err') and v is not True:
+                        problems.append(('data-resumed:nr%d' % idx, 'application data not intact after resumption number %d' % idx))
             if cfg.get('suite') is not None and obs['tl_suite'] != cfg['suite']:
                 problems.append(('wrong-suite', 'asked for %#x got %#x' % (cfg['suite'], obs['tl_suite'])))
         for k, what in problems:
